@@ -4,7 +4,7 @@
    finds and starts a package, and what the packaging backend generates for a console script,
    are observed on real processes by the harness, not proved. *)
 From Coq Require Import String.
-Require Import PyBase CliTypes GenCli Tape Disk Cli DiskDefs CliProofs.
+Require Import PyBase CliTypes GenCli Tape Disk Cli DiskDefs DiskLoopProofs CliProofs CreateCliProofs.
 Open Scope Z_scope.
 
 (* a command line is accepted only if it names an action (the archivers' parsers require one),
@@ -58,6 +58,26 @@ Theorem C19_placement : forall (argv : list (list Z)) (fs : fsmap) (is_fd : bool
 Proof. exact extract_placement. Qed.
 Print Assumptions C19_placement.
 
+(* create writes the archive once, at the path given (sources are optional: the list may be empty,
+   the archive is then blank); moto_tar writes 21504 bytes or nothing at all, the disk tools always
+   write an image of their flavour's length.  The path is the one given whatever --into says:
+   finding F4 of known_findings.json is this fact seen from the manual's side. *)
+Theorem C19_create_writes_the_archive : forall (argv : list (list Z)) (fs : fsmap) (is_fd : bool) vs archive sources,
+  value_of (str "action"%string) vs = Some (str "create"%string) ->
+  (parse tar_cli argv = POk vs (archive :: sources) ->
+     (cli_status (tar_main argv fs) = 0 /\
+      exists raw, cli_effects (tar_main argv fs) = [WriteFile archive raw] /\ zlen raw = 21504) \/
+     (cli_status (tar_main argv fs) <> 0 /\ cli_effects (tar_main argv fs) = [])) /\
+  (parse disk_cli argv = POk vs (archive :: sources) ->
+     (exists e, extension_of archive = Some e /\
+                zeqb_list (map lower_char e) (if is_fd then str "fd"%string else str "sd"%string) = true) ->
+     sources_ok fs -> srcs_printable sources ->
+     cli_status (disk_main is_fd argv fs) = 0 /\
+     exists raw, cli_effects (disk_main is_fd argv fs) = [WriteFile archive raw] /\
+                 zlen raw = if is_fd then 1310720 else 2621440).
+Proof. exact create_cli_placement. Qed.
+Print Assumptions C19_create_writes_the_archive.
+
 (* every documented module and every declared console script resolves (finite check on the
    tables generated from pyproject.toml and the package files, decided by computation) *)
 Theorem C19_entry_points_resolve : forallb snd documented_modules = true /\ forallb snd declared_scripts = true /\
@@ -67,5 +87,8 @@ Print Assumptions C19_entry_points_resolve.
 
 Example C19_example_two_actions : parse tar_cli [str "-c"%string; str "--list"%string; str "a.k7"%string] = PError.
 Proof. vm_compute. reflexivity. Qed.
+Example C19_example_blank : parse disk_cli [str "--create"%string; str "blank.sd"%string] = POk [(str "action"%string, str "create"%string)] [str "blank.sd"%string]
+  /\ extension_of (str "blank.sd"%string) = Some (str "sd"%string).
+Proof. exact create_cli_blank_disk. Qed.
 Example C19_example_ok : match parse disk_cli [str "--extract"%string; str "--into"%string; str "out"%string; str "a.sd"%string] with POk _ [_] => True | _ => False end.
 Proof. vm_compute. exact I. Qed.
